@@ -153,7 +153,7 @@ inductive WSt
   | idleWait (b : BId) (sawIdle : Bool)              -- wait_until_idle: awaiting _on_idle.wait()
   | check (b : BId)                                  -- wait_until_idle: after the sleep(0), about to re-check
   | stopping (b : BId) (deadline : Nat) (clear : Bool) -- stop(): waiting (at most 0.1 s) for the run loop to finish
-  | expecting (b : BId) (key : Key) (k : HId) (deadline : Nat) (got : Option EId)  -- expect(): temporary handler k installed
+  | expecting (b : BId) (key : Key) (k : HId) (deadline : Option Nat) (got : Option EId) (dead : Bool)  -- expect() (dead: its future was cancelled): temporary handler k installed
   deriving DecidableEq, Repr, Inhabited
 
 structure Config where
